@@ -346,6 +346,7 @@ impl<E: Elem> Interp<E> {
             let mut f = FUSES.lock().unwrap();
             f.drop = jarr(scn, "fuse_drop");
             f.clone = jarr(scn, "fuse_clone");
+            f.default = jarr(scn, "fuse_default");
         }
         let rec = scn.get("alloc").and_then(|x| x.as_bool()).unwrap_or(false);
         crate::alloc::reset();
